@@ -68,6 +68,9 @@ CARRIERS = {
                               {"k": "close"}, {"k": "cpp_class", "doc": 1}, {"k": "cpp_attr", "doc": 1, "default": "1"},
                               {"k": "cpp_class", "doc": 1},
                               {"k": "cpp_member", "doc": 1, "types": ["args"], "params": [], "impl": "macro"}],
+    "class_two_inner": lambda: [{"k": "cpp_class", "doc": 1}, {"k": "cpp_class", "doc": 1}, {"k": "close"},
+                                {"k": "cpp_class", "doc": 0}, {"k": "close"}, {"k": "cpp_class", "doc": 1},
+                                {"k": "cpp_attr", "doc": 1}],
     "undocumented": lambda: [{"k": "function", "doc": 0, "params": ["a"]}, {"k": "close"}, {"k": "macro", "doc": 0},
                              {"k": "close"}, {"k": "option", "doc": 0}, {"k": "cpp_class", "doc": 0},
                              {"k": "cpp_attr", "doc": 0}, {"k": "cpp_member", "doc": 0, "types": ["int"], "params": ["a"]},
@@ -233,8 +236,11 @@ def judge(page_text, events, marks):
 
 
 def check(spec):
+    leader = True
+    if spec and spec[0][0] == "<leaderless>":
+        leader, spec = False, spec[1:]
     events, marks = build(spec)
-    text = cmakegen.text_of(events)
+    text = cmakegen.text_of(events, layout={"leader": leader})
     r = pipeline.document_text(text)
     if r["page"] is None:
         msgs = [f"error: pipeline failed: {r['error']}"]
@@ -265,6 +271,12 @@ def run(ctx):
                 for b in ((0, 6, 8) if quick else range(NCON)):
                     s1 = len(slots(cmakegen.close(CARRIERS[c1]())))
                     jobs.append([(c1, {str(max(s1 - 1, 0)): [a]}), (c2, {"0": [b]})])
+    # the same constructs written without '#' leaders on the body lines (unindented block)
+    for c in CARRIERS:
+        ns = len(slots(cmakegen.close(CARRIERS[c]())))
+        for s in range(min(ns, 2)):
+            for seq in [q for q in seqs if len(q) <= (1 if quick else 2)]:
+                jobs.append([("<leaderless>", {}), (c, {str(s): seq})])
     ctx.cov["bounds"] = {"constructs": [c for c in constructs("<marker>")], "max_sequence": n,
                          "carriers": list(CARRIERS), "jobs": len(jobs)}
     ctx.sweep(check, jobs, space="carriers x construct sequences + adjacent pairs")
@@ -274,4 +286,4 @@ def run(ctx):
 
 
 def replay(case):
-    return check([tuple(x) for x in case])["viol"]
+    return check([tuple(x) for x in case])["viol"]   # a leading ("<leaderless>", {}) element selects the leaderless style
